@@ -404,6 +404,11 @@ func (w *world) reconcile(c *vt.C) *vt.Finding {
 		for i := 0; i < len(order); i++ {
 			for j := i + 1; j < len(order); j++ {
 				a, b := w.prods[order[i]], w.prods[order[j]]
+				if a.acceptHi == 0 || b.acceptHi == 0 {
+					// no acceptance window recorded (steps start at 1): the hand-off was completed before a
+					// reconcile saw it parked; nothing is known about when it was accepted
+					continue
+				}
 				if b.acceptHi < a.acceptLo {
 					return vt.Failf("fifo", "single consumer: rid=%d (accepted at step %d..%d) was handed before rid=%d (accepted at step %d..%d)", a.rid, a.acceptLo, a.acceptHi, b.rid, b.acceptLo, b.acceptHi)
 				}
@@ -611,6 +616,10 @@ func (w *world) complete(c *vt.C, pick int, fail bool) *vt.Finding {
 	}
 	p := w.prods[h.rid]
 	p.outcome, p.hasResult = out, true
+	if p.acceptHi == 0 {
+		// handed over since the last reconcile: accepted somewhere between its offer and now
+		p.acceptLo, p.acceptHi = p.step, w.step
+	}
 	h.ch <- out
 	c.Class("complete")
 	if p.state == "inflight" || p.state == "queued" {
@@ -690,6 +699,9 @@ func (w *world) burst(c *vt.C, op *Op) *vt.Finding {
 	for _, h := range hs {
 		p := w.prods[h.rid]
 		p.outcome, p.hasResult = nil, true
+		if p.acceptHi == 0 {
+			p.acceptLo, p.acceptHi = p.step, w.step
+		}
 		wg.Add(1)
 		go func(h *handoff) { defer wg.Done(); <-start; h.ch <- nil }(h)
 	}
